@@ -405,7 +405,7 @@ Definition sort_key2 (d : cdiag) : skey2 := (sort_key d, (c_level d, c_rest d)).
 Definition kcmp2 : skey2 -> skey2 -> comparison := lexp kcmp (lexp Z.compare N.compare).
 
 Lemma kcmp2_ok : OrdOK kcmp2.
-Proof. unfold kcmp2. repeat apply lexp_ok; auto using kcmp_ok, Z_cmp_ok, N_cmp_ok. Qed.
+Proof. unfold kcmp2. apply lexp_ok; [apply kcmp_ok | apply lexp_ok; [apply Z_cmp_ok | apply N_cmp_ok]]. Qed.
 
 Lemma dcmp2_kcmp2 a b : dcmp2 a b = kcmp2 (sort_key2 a) (sort_key2 b).
 Proof. reflexivity. Qed.
